@@ -460,26 +460,24 @@ class Engine:
     # =============================================================================================
     # feasibility / forking
     def feasible(self, st, extra=None):
+        """path pruning: `unsat` of the quantifier-free part of the path condition (a subset of the hypotheses, so pruning is
+        sound); quantified facts make model search time out without ever pruning anything"""
         self.feas_checks += 1
-        cs = list(st.pc) + ([extra] if extra is not None else [])
-        r = solve.check_sat(self.axioms_now() + cs, 300)
+        cs = [c for c in st.pc if not _has_quantifier(c)] + ([extra] if extra is not None else [])
+        r = solve.check_sat([a for a in self.hierarchy_axioms() if not z3.is_quantifier(a)] + cs, 300)
         return r != "unsat"
 
     def axioms_now(self, wf=True):
         return list(self.axioms) + list(Q.AXIOMS) + (list(self.wf_axioms) if wf else []) + self.hierarchy_axioms()
 
-    def satisfiable(self, constraints, ms=3000):
-        """model search for vacuity/cover checks: 'sat' | 'unsat' | 'unknown'.  If the full query is `unknown`, the
-        list well-formedness axioms (which only fix the unobservable cells outside [0,len)) are dropped and the search
-        is repeated; a model found that way is accepted and the fact is recorded as an assumption."""
-        r = solve.check_sat(self.axioms_now() + list(constraints), ms)
-        if r != "unknown":
-            return r
-        r2 = solve.check_sat(self.axioms_now(wf=False) + list(constraints), ms)
-        if r2 == "sat":
-            self.assumptions.add("cover/vacuity model search drops the list-canonical-form axioms when the full query is `unknown`")
-            return "sat"
-        return "unknown"
+    def satisfiable(self, constraints, ms=1500):
+        """vacuity / cover guard: 'unsat' when the quantifier-free part of the constraints (with the ground class-hierarchy
+        facts) is already contradictory, 'sat' when that part has a model, else 'unknown'.  Quantified hypotheses are left out:
+        model search over them times out without deciding anything (recorded as an assumption of the guard)."""
+        cs = [c for c in constraints if not _has_quantifier(c)]
+        ground = [a for a in self.hierarchy_axioms() if not z3.is_quantifier(a)]
+        self.assumptions.add("vacuity/cover guards are evaluated on the quantifier-free part of the path condition")
+        return solve.check_sat(ground + cs, ms)
 
     def branch(self, st, c):
         c = z3.simplify(c)
@@ -1423,6 +1421,32 @@ OPAQUE_METHODS = {"get", "keys", "values", "items", "relative_to", "read_bytes",
                   "joinpath", "exists", "is_file", "is_symlink", "rglob", "lower", "upper", "split", "strip", "with_changes",
                   "absolute", "resolve", "decode", "encode", "splitlines", "startswith", "endswith", "measure", "append",
                   "extend", "deep_clone", "transform", "visit", "getLineNumber", "getColumnNumber", "load", "select"}
+
+
+_qcache = {}
+
+
+def _has_quantifier(e):
+    i = e.get_id()
+    if i in _qcache:
+        return _qcache[i]
+    todo = [e]
+    seen = set()
+    res = False
+    n = 0
+    while todo:
+        x = todo.pop()
+        j = x.get_id()
+        if j in seen:
+            continue
+        seen.add(j)
+        n += 1
+        if z3.is_quantifier(x) or n > 3000:
+            res = True
+            break
+        todo.extend(x.children())
+    _qcache[i] = res
+    return res
 
 
 def _m(s):
